@@ -388,6 +388,39 @@ fn eval(name: &str, a: &[Value]) -> Value {
                 Err(e) => json!({"Err": e.to_string()}),
             }
         }
+        // pretty and diff renderer on a diff shape: "M" matched, "U" unmatched expectation, "X" run of two unexpected lines; texts exp<i>q / out<j>z
+        "render_diff_shape" => {
+            use scrut::renderers::renderer::Renderer;
+            let kinds = str_arg(&a[0]);
+            let surrounding = a[1].as_u64().unwrap_or(5) as usize;
+            let maker = scrut::expectation::ExpectationMaker::new(scrut::rules::registry::RuleRegistry::default());
+            let (mut items, mut exps) = (vec![], vec![]);
+            let (mut ei, mut li) = (0usize, 0usize);
+            for k in kinds.chars() {
+                match k {
+                    'U' => { let e = maker.parse(&format!("exp{}q", ei)).unwrap(); exps.push(e.clone());
+                             items.push(scrut::diff::DiffLine::UnmatchedExpectation { index: ei, expectation: e }); ei += 1; }
+                    'M' => { let e = maker.parse(&format!("exp{}q", ei)).unwrap(); exps.push(e.clone());
+                             items.push(scrut::diff::DiffLine::MatchedExpectation { index: ei, expectation: e, lines: vec![(li, format!("exp{}q\n", ei).into_bytes())] }); ei += 1; li += 1; }
+                    _ => { let mut run = vec![]; for _ in 0..2 { run.push((li, format!("out{}z\n", li).into_bytes())); li += 1; }
+                           items.push(scrut::diff::DiffLine::UnexpectedLines { lines: run }); }
+                }
+            }
+            let diff = scrut::diff::Diff::new(items);
+            let testcase = scrut::testcase::TestCase { title: "t".into(), shell_expression: "cmd".into(), expectations: exps, exit_code: None,
+                line_number: 3, config: scrut::config::TestCaseConfig::empty() };
+            let outcome = scrut::outcome::Outcome { location: None, output: ("", "", Some(0)).into(), testcase,
+                format: scrut::parsers::parser::ParserType::Markdown, escaping: scrut::escaping::Escaper::Unicode,
+                result: Err(scrut::testcase::TestCaseError::MalformedOutput(diff)) };
+            let show = |r: std::thread::Result<anyhow::Result<String>>| match r {
+                Ok(Ok(s)) => json!({"Ok": s}), Ok(Err(e)) => json!({"Err": format!("{:#}", e)}), Err(_) => json!({"panic": true}) };
+            let o1 = std::panic::AssertUnwindSafe(&outcome);
+            let pretty = std::panic::catch_unwind(move || scrut::renderers::pretty::PrettyMonochromeRenderer::new(scrut::renderers::pretty::PrettyColorRenderer {
+                    max_surrounding_lines: surrounding, absolute_line_numbers: false, summarize: true }).render(&[*o1]));
+            let o2 = std::panic::AssertUnwindSafe(&outcome);
+            let diffr = std::panic::catch_unwind(move || scrut::renderers::diff::DiffRenderer::new().render(&[*o2]));
+            json!({"pretty": show(pretty), "diff": show(diffr)})
+        }
         // pretty and diff renderer on a failed test case with a matched expectation `text`, an unmatched `text`x and an unexpected line `text`y
         "render_long_lines" => {
             use scrut::renderers::renderer::Renderer;
@@ -531,6 +564,17 @@ fn eval(name: &str, a: &[Value]) -> Value {
             match scrut::executors::bash_script_executor::verif_hooks::iterate_divided_output(&salt, &bytes_arg(&a[0])) {
                 Ok(v) => json!({"Ok": v.iter().map(|(i, o, c)| json!([i, bytes_val(o), c])).collect::<Vec<_>>()}),
                 Err(e) => json!({"Err": e}),
+            }
+        }
+        // TestCase::render_output(bytes) under keep_crlf / strip_ansi_escaping (null | bool each)
+        "render_output" => {
+            let mut config = scrut::config::TestCaseConfig::empty();
+            config.keep_crlf = a[1].as_bool();
+            config.strip_ansi_escaping = a[2].as_bool();
+            let tc = scrut::testcase::TestCase { title: "t".into(), shell_expression: "x".into(), expectations: vec![], exit_code: None, line_number: 1, config };
+            match tc.render_output(&bytes_arg(&a[0])) {
+                Ok(v) => json!({"Ok": bytes_val(&v)}),
+                Err(e) => json!({"Err": format!("{:#}", e)}),
             }
         }
         // the real single-script executor: {"commands": [..], "skip": i32|null (every test case), "default_skip": i32|null (document defaults)}
